@@ -375,6 +375,13 @@ def check(prop_module, tier, seed, replay=None):
   reported, known_hits, violations = [], {}, 0
   out_lines = []
   replay_dir = VERIF / 'replays'
+  if not replay and replay_dir.is_dir():
+    # replay files of an earlier run with this property and seed would read as results of this one
+    for old in replay_dir.glob(f'{pid}-{seed}-*.json'):
+      try:
+        old.unlink()
+      except OSError:
+        pass
   for (c, o, m, why_oracle, why_model) in failures:
     fid = P.classify(c, o, m, why_oracle, why_model, findings) if findings else None
     if fid:
